@@ -112,7 +112,7 @@ pub fn run(prop: &str, outdir: &str, seed: u64, thorough: bool) -> serde_json::V
         let mut r = rng.fork();
         if i % 10 == 9 { data = gen_data(&mut r, &w.specs, 12); db = Db::new(&w.specs, &data); }
         let depth = r.range(0, 2) as u32;
-        let (q0, cols) = if prop == "C07" && r.chance(1, 6) { st.bump("comparison_projection_queries"); cmp_query(&mut r) } else { let mut g = QGen::new(&mut r, &w.specs); g.query(depth) };
+        let (q0, cols) = if prop == "C07" && r.chance(1, 6) { st.bump("comparison_projection_queries"); cmp_query(&mut r) } else { let mut g = QGen::new(&mut r, &w.specs); g.bool_items = true; g.query(depth) };
         let is_set = q0.contains(" UNION ") || q0.contains(" INTERSECT ") || q0.contains(" EXCEPT ");
         let (sql, _) = if is_set { (q0.clone(), false) } else { decorate(&mut r, &q0, &cols) };
         let rel = match catch_unwind(AssertUnwindSafe(|| to_relation(&w, &sql))) { Ok(Ok(rel)) => rel, Ok(Err(_)) => { st.bump("query_rejected"); continue; } Err(_) => { st.bump("query_panicked"); continue; } };
